@@ -283,7 +283,8 @@ func validFile(r *rand.Rand, format string) []byte {
 }
 
 var c03Splices = []string{"\n", "\r", "\r\n", " ", "\t", "[", "]", ";", "#", ">", "=", "//", "0", "9", "-1", "99999999999999999999", "A", "-", ".", ",", "/",
-	"#NEXUS", "BEGIN", "MATRIX", "END;", "CLUSTAL", "# STOCKHOLM 1.0", "#=GF x", "[abc", "DIMENSIONS", "\x00", "  \n", ">\n", "> \n"}
+	"#NEXUS", "BEGIN", "MATRIX", "END;", "CLUSTAL", "# STOCKHOLM 1.0", "#=GF x", "[abc", "DIMENSIONS", "\x00", "  \n", ">\n", "> \n",
+	"9223372036854775807", "/9223372036854775806", "TITLE x;", "OPTIONS GAPMODE=MISSING;", "MATRIX\n;", "NTAX=0", "NCHAR=0", "\n;\nEND;\n"}
 
 func mutateFile(r *rand.Rand, f []byte) []byte {
 	b := append([]byte{}, f...)
@@ -343,6 +344,14 @@ func c03(args []string) error {
 		{"fasta", ">a\n"}, {"fasta", "> \n"}, {"fasta", ""}, {"phylip", "1 4\r"}, {"phylip", "9999999999 4\n"}, {"phylip", "2 -4\na AC\n"},
 		{"clustal", "CLUSTAL W\n\na AC\n\na AC\nb GT\n"}, {"clustal", "CLUSTAL\r"}, {"phylip-strict", "1 2\n\xc3\xa9\xc3\xa9\xc3\xa9\xc3\xa9\xc3\xa9 AC\n"},
 		{"partition", "M,p=0-3\n"}, {"partition", "M,p=1-99\n"}, {"nexus", "#NEXUS\nBEGIN DATA;\nDIMENSIONS NTAX=1 NCHAR=2;\nMATRIX\na AC"},
+		// a stride that overflows the site index; rows with a name and no character; blocks without rows
+		{"partition", "M,p=2-4/9223372036854775807\n"}, {"partition", "M,p=1-4/9223372036854775806,2\n"},
+		{"nexus", "#NEXUS\nBEGIN DATA;\nDIMENSIONS NTAX=2 NCHAR=0;\nFORMAT DATATYPE=dna;\nMATRIX\na \nb \n;\nEND;\n"},
+		{"nexus", "#NEXUS\nBEGIN DATA;\nMATRIX\na\nb\n;\nEND;\n"}, {"nexus", "#NEXUS\nBEGIN DATA;\nMATRIX\n;\nEND;\n"},
+		{"nexus", "#NEXUS\nBEGIN DATA;\nEND;\n"}, {"nexus", "#NEXUS\nBEGIN DATA;\nDIMENSIONS NTAX=0 NCHAR=0;\nMATRIX\n;\nEND;\n"},
+		{"nexus", "#NEXUS\nBEGIN DATA;\n  TITLE x"}, {"nexus", "#NEXUS\nBEGIN TAXA;\n  OPTIONS GAPMODE=MISSING"},
+		{"phylip", "2 0\na \nb \n"}, {"phylip", "2 0\na\nb\n"}, {"phylip-strict", "2 0\naaaaaaaaaa\nbbbbbbbbbb\n"},
+		{"clustal", "CLUSTAL W\n\na \nb \n"}, {"stockholm", "# STOCKHOLM 1.0\na \nb \n//\n"}, {"stockholm", "# STOCKHOLM 1.0\na\nb\n//\n"},
 	}
 	for _, c := range corpus {
 		reqs = append(reqs, parseReq{Format: c.f, Policy: 0, Alpha: align.BOTH, PLen: 4, Input: hex.EncodeToString([]byte(c.in))})
